@@ -115,6 +115,7 @@ type prepared struct {
 	src   interface{}
 	rms   []valid.RM
 	rmsCp []map[string]string
+	post  func() string // scalar calls: the collection handed in, compared with a rebuilt one
 }
 
 func (p *prepared) run() outcome {
@@ -141,7 +142,21 @@ func (c *Call) prepare() *prepared {
 		}}
 	}
 	if c.V != nil {
-		return &prepared{call: c.V.prepare()}
+		var v reflect.Value
+		p := &prepared{call: c.V.prepareV(&v)}
+		if k := v.Kind(); k == reflect.Slice || k == reflect.Array {
+			sc := c.V
+			p.post = func() string {
+				if vb, _ := jsonMarshal(sc.Val); strings.Contains(string(vb), `"nan":true`) {
+					return "" // NaN is never DeepEqual to itself
+				}
+				if again := sc.value(); !reflect.DeepEqual(v.Interface(), again.Interface()) {
+					return fmt.Sprintf("input value changed: now %+v, was built as %+v", v.Interface(), again.Interface())
+				}
+				return ""
+			}
+		}
+		return p
 	}
 	s := c.S
 	src := s.source()
@@ -219,6 +234,9 @@ func copyMap(m map[string]string) map[string]string {
 // inputsUnchanged compares the arguments after the call with what they were
 // built from (C12: the call leaves its input value and rule map unmodified).
 func (p *prepared) inputsUnchanged(c *Call) string {
+	if p.post != nil {
+		return p.post()
+	}
 	if c.S == nil || c.H != nil {
 		return ""
 	}
@@ -460,6 +478,24 @@ func genOverride(t *rapid.T, ty desc.T, mg *msgGen) map[string]string {
 
 // genScalarCall draws a Var / Map / Url / one-field-struct call.
 func genScalarCall(t *rapid.T, mg *msgGen) *ScalarCase {
+	if rapid.IntRange(0, 7).Draw(t, "sliceCall") == 3 {
+		// a slice of scalars handed to Var or sitting in a one-field struct: a few elements or dozens, in descending order
+		ek := rapid.SampledFrom([]string{"int", "string", "int64"}).Draw(t, "sek")
+		c := &ScalarCase{T: desc.Slice(desc.Scalar(ek))}
+		if rapid.Bool().Draw(t, "sDozens") {
+			c.Val = dozens(t, ek)
+		} else {
+			for i := rapid.IntRange(1, 4).Draw(t, "sn"); i > 0; i-- {
+				c.Val.E = append(c.Val.E, genScalar(t, ek, "se", false))
+			}
+		}
+		for i := rapid.IntRange(1, 2).Draw(t, "snRules"); i > 0; i-- {
+			c.Rules = append(c.Rules, rapid.SampledFrom([]string{"unique", "unique", "ge=2", "le=40", "required"}).Draw(t, "srule")+mg.next(t))
+		}
+		c.Carrier = rapid.SampledFrom([]string{"var", "var", "tag", "rm"}).Draw(t, "carrier")
+		c.ViaPtr = rapid.IntRange(0, 5).Draw(t, "viaPtr") == 0
+		return c
+	}
 	kind := rapid.SampledFrom([]string{"string", "string", "int", "int8", "uint8", "uint64", "float64", "bool"}).Draw(t, "skind")
 	c := &ScalarCase{T: desc.Scalar(kind), Val: genScalar(t, kind, "sv", true)}
 	m, hasM := measureOf(kind, c.Val)
